@@ -1,17 +1,236 @@
-(* C14 — approved-method settings are locked unless developer mode is explicit. *)
+(* C14 — approved-method settings are locked unless developer mode is explicit.
+   Statements only; generic proofs are in Proofs/SettingsProofs.v; the decision procedures over the regenerated
+   trees (Generated/SettingsGen.v, rewritten from /repo by harness/translate_settings.py on every run) are in
+   Proofs/SettingsGenProofs.v and are evaluated here by vm_compute; the model is Model/Settings.v.
+   Order: theorems that hold for every tree first, facts about the regenerated trees last, so that a change of the
+   source that breaks one of the latter still leaves the former re-checked and counted. *)
 From Coq Require Import ZArith QArith List Bool String.
 From V Require Import Model.Settings Generated.SettingsGen Proofs.SettingsProofs Proofs.SettingsGenProofs.
 Import ListNotations.
 Open Scope string_scope.
 
+(* explicit witnesses (no existential variables under vm_compute) *)
+Definition the (r : result sval) : sval := match r with Accept s => s | Reject _ => SLeaf JNull end.
+Definition fields_of (s : sval) : list (string * sval) := match s with SObj _ f => f | SLeaf _ => [] end.
+
+(* ================================================================== (2) the lock *)
+(* Full statement (kept visible): whatever the override document — dicts, nested dicts, settings objects —
+   an accepted construction without developer mode leaves every developer leaf of the tree, at every
+   nesting level, at the tree's default. *)
+Definition C14_dev_lock_statement : Prop :=
+  forall reg n d c o vs ch kvs gov f,
+    In VDevMode vs ->
+    vtop reg (Node n d c o vs ch) kvs = Accept (SObj gov f) ->
+    get_leaf "developer_mode" f = Some (JBool false) ->
+    forall path l v, leaf_at ch path = Some l -> ldev l = true -> value_at (SObj gov f) path = Some v ->
+    jv_eqb v (ldefault l) = true.
+
+(* proved for every tree, every depth, every document without object input (dicts, the documented way);
+   by induction on the path through the tree *)
+Theorem C14_dev_lock_partial :
+  forall reg n d c o vs ch kvs gov f,
+    no_inst_kvs kvs = true ->
+    In VDevMode vs ->
+    vtop reg (Node n d c o vs ch) kvs = Accept (SObj gov f) ->
+    get_leaf "developer_mode" f = Some (JBool false) ->
+    forall path l v, leaf_at ch path = Some l -> ldev l = true -> value_at (SObj gov f) path = Some v ->
+    jv_eqb v (ldefault l) = true.
+Proof. exact dev_lock_l. Qed.
+Print Assumptions C14_dev_lock_partial.
+
+(* the lock is exact: it answers "developer mode is not enabled" only if some developer leaf of the tree, at some
+   depth, does not hold its default — so a document that changes open fields only (season and weekday maps,
+   uncertainty level, ...) is never refused by the lock.  By induction on the tree; wf_children = field names
+   unique, no optional nested object (checked on the regenerated trees below). *)
+Theorem C14_lock_exact : forall reg n d c o vs ch kvs,
+  wf_children ch = true -> no_inst_kvs kvs = true ->
+  vtop reg (Node n d c o vs ch) kvs = Reject RDeveloper ->
+  exists f path l v, vfields reg ch (norm_kvs kvs) = Some f /\
+    leaf_at ch path = Some l /\ ldev l = true /\ value_at (SObj ch f) path = Some v /\ jv_eqb v (ldefault l) = false.
+Proof. exact lock_exact_l. Qed.
+Print Assumptions C14_lock_exact.
+
+Theorem C14_nondev_not_locked : forall reg n d c o vs ch kvs f,
+  wf_children ch = true -> no_inst_kvs kvs = true ->
+  vfields reg ch (norm_kvs kvs) = Some f ->
+  (forall path l v, leaf_at ch path = Some l -> ldev l = true -> value_at (SObj ch f) path = Some v ->
+                    jv_eqb v (ldefault l) = true) ->
+  vtop reg (Node n d c o vs ch) kvs <> Reject RDeveloper.
+Proof. exact nondev_not_locked_l. Qed.
+Print Assumptions C14_nondev_not_locked.
+
+(* non-vacuity: the lock does fire on the regenerated daily tree, two levels down, and the trees are well formed *)
+Example C14_lock_exact_nonvacuous :
+  vtop reg t_DailySettings [("split_selection", JObj [("penalty_power", JNum 3)])] = Reject RDeveloper /\
+  wf_children children_DailySettings = true /\ wf_children children_DailyLegacySettings = true /\
+  wf_children children_BillingSettings = true.
+Proof. repeat split; vm_compute; reflexivity. Qed.
+
+(* non-vacuity: a nested open override on the regenerated daily tree is accepted without developer mode and a
+   developer leaf two levels down is reachable *)
+Example C14_dev_lock_nonvacuous :
+  exists f, vtop reg t_DailySettings [("Season", JObj [(" MARCH ", JStr "Winter ")])] = Accept (SObj children_DailySettings f) /\
+            get_leaf "developer_mode" f = Some (JBool false) /\
+            value_at (SObj children_DailySettings f) ["season"; "march"] = Some (JStr "winter") /\
+            (exists l, leaf_at children_DailySettings ["split_selection"; "criteria"] = Some l /\ ldev l = true) /\
+            In VDevMode [VDevMode; VAlphaFinal; VFinalBounds; VInitStep].
+Proof.
+  exists (fields_of (the (vtop reg t_DailySettings [("Season", JObj [(" MARCH ", JStr "Winter ")])]))).
+  split; [vm_compute; reflexivity|]. split; [vm_compute; reflexivity|]. split; [vm_compute; reflexivity|].
+  split; [|left; reflexivity].
+  exists (match leaf_at children_DailySettings ["split_selection"; "criteria"] with Some l => l | None =>
+            {| lname := ""; ldev := false; lty := {| base := BBool; optional := false |}; ldefault := JNull; lexcl := false; lreq := [] |} end).
+  split; vm_compute; reflexivity.
+Qed.
+
+(* the faithful model of the unchanged code does NOT satisfy the full statement: a settings object of a subclass
+   is compared with the defaults of its own class (settings.py:196-204 iterates cls.model_fields of the object).
+   Witness replayed on the implementation by harness/c14.py (corpus/C14.json), known finding C14-K1. *)
+Theorem C14_dev_lock_refuted :
+  exists kvs f path l v,
+    vtop reg t_DailySettings kvs = Accept (SObj children_DailySettings f) /\
+    get_leaf "developer_mode" f = Some (JBool false) /\
+    leaf_at children_DailySettings path = Some l /\ ldev l = true /\
+    value_at (SObj children_DailySettings f) path = Some v /\ jv_eqb v (ldefault l) = false.
+Proof.
+  exists [("split_selection", JInst "Split_Selection_Legacy_Definition" [])].
+  exists (fields_of (the (vtop reg t_DailySettings [("split_selection", JInst "Split_Selection_Legacy_Definition" [])]))).
+  exists ["split_selection"; "allow_separate_summer"].
+  exists (match leaf_at children_DailySettings ["split_selection"; "allow_separate_summer"] with Some l => l | None =>
+            {| lname := ""; ldev := false; lty := {| base := BBool; optional := false |}; ldefault := JNull; lexcl := false; lreq := [] |} end).
+  exists (JBool false).
+  split; [vm_compute; reflexivity|]. split; [vm_compute; reflexivity|]. split; [vm_compute; reflexivity|].
+  split; [vm_compute; reflexivity|]. split; vm_compute; reflexivity.
+Qed.
+Print Assumptions C14_dev_lock_refuted.
+
+(* ================================================================== (3) normalisation *)
+Theorem C14_normalise_idempotent : forall kvs, normalise_kvs (normalise_kvs kvs) = normalise_kvs kvs.
+Proof. exact normalise_kvs_idempotent_l. Qed.
+Print Assumptions C14_normalise_idempotent.
+
+(* key case/whitespace at every nesting level and case/whitespace of string values never change the outcome
+   (acceptance, rejection reason, settled values) of constructing a settings class — any tree, any registry *)
+Theorem C14_case_whitespace_irrelevant : forall reg t kvs, vtop reg t (normalise_kvs kvs) = vtop reg t kvs.
+Proof. exact case_whitespace_irrelevant_l. Qed.
+Print Assumptions C14_case_whitespace_irrelevant.
+
+Example C14_case_whitespace_nonvacuous :
+  let kvs := [("  Developer_Mode", JStr " TRUE "); ("SPLIT_selection ", JObj [(" Criteria", JStr " AIC ")])] in
+  normalise_kvs kvs <> kvs /\
+  exists s, vtop reg t_DailySettings kvs = Accept s /\ value_at s ["split_selection"; "criteria"] = Some (JStr "aic").
+Proof.
+  split; [vm_compute; discriminate|].
+  exists (the (vtop reg t_DailySettings [("  Developer_Mode", JStr " TRUE "); ("SPLIT_selection ", JObj [(" Criteria", JStr " AIC ")])])).
+  split; vm_compute; reflexivity.
+Qed.
+
+(* ... but HourlyModel picks the settings class from the RAW key "train_features" before any normalisation
+   (hourly/model.py:106-113): at the constructor level key case does matter there.  A fact about the code the
+   statement of C14 does not forbid; kept visible, replayed by the correspondence (stream "multi"). *)
+Theorem C14_hourly_dispatch_is_case_sensitive :
+  exists kvs, construct reg CHourlyModel (InDict (normalise_kvs kvs)) <> construct reg CHourlyModel (InDict kvs).
+Proof. exists [("Train_Features", JList [JStr "ghi"])]. vm_compute. discriminate. Qed.
+Print Assumptions C14_hourly_dispatch_is_case_sensitive.
+
+(* ================================================================== (4) stored models *)
+(* Full statement (kept visible): what a model records is what it was built with, and the record reloads to it. *)
+Definition C14_stored_statement (c : ctor) : Prop :=
+  forall i s, construct reg c i = Accept s ->
+    stored_settings c s = dump s /\
+    exists s', reload reg c (stored_settings c s) = Accept s' /\ dump s' = dump s.
+
+(* the record is the dump of the settings for every constructor but the two billing ones *)
+Theorem C14_stored_is_built_partial : forall c s,
+  c <> CBillingModel -> c <> CBillingWeighted -> stored_settings c s = dump s.
+Proof. intros [] s H1 H2; try reflexivity; contradiction. Qed.
+Print Assumptions C14_stored_is_built_partial.
+
+(* on the regenerated trees: default and open-override documents of the current daily model reload to themselves *)
+Example C14_stored_daily_reloads :
+  forall i, In i [InNone; InDict [("uncertainty_alpha", JNum (1 # 4)); ("season", JObj [("march", JStr "winter")])];
+                  InDict [("developer_mode", JBool true); ("alpha_selection", JNum 1)]] ->
+  exists s s', construct reg (CDailyModel "current") i = Accept s /\
+               reload reg (CDailyModel "current") (stored_settings (CDailyModel "current") s) = Accept s' /\
+               jv_eqb (dump s') (dump s) = true.
+Proof.
+  intros i Hi.
+  exists (the (construct reg (CDailyModel "current") i)).
+  exists (the (reload reg (CDailyModel "current") (stored_settings (CDailyModel "current") (the (construct reg (CDailyModel "current") i))))).
+  destruct Hi as [<-|[<-|[<-|[]]]]; (split; [vm_compute; reflexivity|]); split; vm_compute; reflexivity.
+Qed.
+
+(* refuted for the legacy daily model: DailyModel.from_dict rebuilds with the CURRENT defaults, the lock rejects
+   the legacy document (D6; known finding C14-K2) *)
+Theorem C14_stored_legacy_refuted :
+  exists s, construct reg (CDailyModel "legacy") InNone = Accept s /\
+            reload reg (CDailyModel "legacy") (stored_settings (CDailyModel "legacy") s) = Reject RDeveloper.
+Proof. exists (the (construct reg (CDailyModel "legacy") InNone)). split; vm_compute; reflexivity. Qed.
+Print Assumptions C14_stored_legacy_refuted.
+
+(* refuted for the billing models: to_dict overwrites developer_mode (known findings C14-K3/K4) *)
+Theorem C14_stored_billing_refuted :
+  exists s s', construct reg CBillingModel InNone = Accept s /\
+               jv_eqb (stored_settings CBillingModel s) (dump s) = false /\
+               reload reg CBillingModel (stored_settings CBillingModel s) = Accept s' /\
+               developer_mode_of s = Some false /\ developer_mode_of s' = Some true.
+Proof.
+  exists (the (construct reg CBillingModel InNone)).
+  exists (the (reload reg CBillingModel (stored_settings CBillingModel (the (construct reg CBillingModel InNone))))).
+  split; [vm_compute; reflexivity|]. repeat split; vm_compute; reflexivity.
+Qed.
+Print Assumptions C14_stored_billing_refuted.
+
+(* ================================================================== (1) the constants (regenerated trees vs frozen list) *)
+(* "Constructed without arguments, each model family uses exactly the approved method constants":
+   the default of every leaf of every regenerated tree equals the frozen transcription
+   /verif/approved_settings.json — same paths, same values *)
 Theorem C14_defaults_are_approved : forall c, In c top_classes -> defaults_ok c = true.
-Proof. exact defaults_are_approved_l. Qed.
+Proof. apply lift_forallb. vm_cast_no_check (eq_refl true). Qed.
 Print Assumptions C14_defaults_are_approved.
 
+(* every approved constant of the daily / legacy / billing trees carries developer=True in the code exactly where
+   the frozen list says "locked", every unlocked one is one of the documented open fields, and the root class
+   runs the developer-mode check *)
 Theorem C14_every_method_constant_is_dev_locked : forall c, In c locked_families -> locks_ok c = true.
-Proof. exact every_method_constant_is_dev_locked_l. Qed.
+Proof. apply lift_forallb. vm_cast_no_check (eq_refl true). Qed.
 Print Assumptions C14_every_method_constant_is_dev_locked.
 
+(* types, bounds and enum members of every field are the frozen ones (what "invalid value" means did not move) *)
 Theorem C14_domains_are_approved : forall c, In c top_classes -> domains_ok c = true.
-Proof. exact domains_are_approved_l. Qed.
+Proof. apply lift_forallb. vm_cast_no_check (eq_refl true). Qed.
 Print Assumptions C14_domains_are_approved.
+
+Example C14_constants_nonvacuous :
+  In "DailySettings" locked_families /\ List.length (approved_of "DailySettings") = 48%nat /\
+  leaf_at (children_of t_DailySettings) ["split_selection"; "penalty_power"] <> None.
+Proof. split; [left; reflexivity|]. split; [vm_compute; reflexivity|]. vm_compute. discriminate. Qed.
+
+(* exhaustive inside Coq, on the regenerated daily / legacy / billing trees: every leaf x every alternative of
+   the model-side enumerator, one override, developer mode not given:
+     developer leaf, value changes -> Reject RDeveloper;   value the field cannot take -> Reject RField;
+     open leaf, valid value         -> accepted and visible at that path (or refused by the season/weekday
+                                       option rule, never by the lock) *)
+Theorem C14_every_single_override : forall c, In c locked_families -> singles_ok c = true.
+Proof. apply lift_forallb. vm_cast_no_check (eq_refl true). Qed.
+Print Assumptions C14_every_single_override.
+
+(* the hourly trees carry no developer flag and run no lock: the lock statement is vacuous there *)
+Theorem C14_hourly_trees_have_no_lock :
+  forallb unlocked_ok ["BaseHourlySettings"; "HourlySolarSettings"; "HourlyNonSolarSettings"] = true.
+Proof. vm_compute. reflexivity. Qed.
+Print Assumptions C14_hourly_trees_have_no_lock.
+
+(* build -> store -> reload, exhaustive inside Coq over every leaf x every model-side alternative (developer leaves
+   overridden in developer mode, open leaves without it), on the regenerated trees:
+     current daily model, both billing models : every accepted construction reloads, and the reloaded settings dump
+                                                to the record;
+     DailyModel(model="legacy")               : exactly the models built in developer mode reload; every other record
+                                                is refused by the lock of the current defaults (D6, C14-K2) *)
+Theorem C14_stored_reload_enumerated :
+  all_reloads_ok reg SameRecord (CDailyModel "current") t_DailySettings = true /\
+  all_reloads_ok reg LockedOutUnlessDev (CDailyModel "legacy") t_DailyLegacySettings = true /\
+  all_reloads_ok reg SameRecord CBillingModel t_DailyLegacySettings = true /\
+  all_reloads_ok reg SameRecord CBillingWeighted t_BillingSettings = true.
+Proof. split; [|split; [|split]]; vm_cast_no_check (eq_refl true). Qed.
+Print Assumptions C14_stored_reload_enumerated.
